@@ -37,6 +37,11 @@ def report(chk, cfg, ops, res, source):
 
 
 CORPUS = [
+    # a call memoized twice with the identical result object (None; an array the caller holds): the second memento is the call's
+    [["memoize", 1, 1, None, None], ["memoize", 1, 1, None, None], ["getm", [[1, 1]]], ["lsm", 1], ["lookread", 1, 1]],
+    [["hold", 4], ["memoize", 1, 1, None, 4], ["getm", [[1, 1]]], ["memoize", 1, 1, 2, 4], ["getm", [[1, 1]]], ["lsm", 1], ["lookread", 1, 1]],
+    # an empty metadata value is a value (first write and overwrite)
+    [["memoize", 1, 1, None, 1], ["wmeta", 1, 1, 1, 0], ["rmeta", 1, 1, 1], ["wmeta", 1, 1, 2, 7], ["wmeta", 1, 1, 2, 0], ["rmeta", 1, 1, 2], ["rmeta", 1, 1, 1]],
     # custom metadata survives a second memoize of its call; keys that are prefixes of one another are separate keys
     [["memoize", 1, 1, None, 1], ["wmeta", 1, 1, 1, 7], ["wmeta", 1, 1, 2, 8], ["memoize", 1, 1, None, 2], ["rmeta", 1, 1, 1], ["rmeta", 1, 1, 2],
      ["wmeta", 1, 1, 2, 9], ["rmeta", 1, 1, 1], ["rmeta", 1, 1, 2]],
